@@ -1,7 +1,15 @@
 package main
 
 import (
+	"bytes"
+	"fmt"
+	"runtime"
+	"sort"
+	"strings"
+	"sync"
+
 	"github.com/IBM/fluent-forward-go/fluent/protocol"
+	"github.com/tinylib/msgp/msgp"
 )
 
 // CHUNK <cls> <hex> => ok <hex> | err        protocol.GetChunk / RawMessage.Chunk (must agree)
@@ -32,6 +40,100 @@ func init() {
 				return "ok " + hx([]byte(snap)) + " unstable"
 			}
 			return "ok " + hx([]byte(c))
+		})
+	}
+	// CHUNKC <hex>… => per message the distinct outcomes seen, "|"-separated (ok_<hex> / err / raw-disagrees / panic)
+	// one goroutine pair per message (GetChunk and RawMessage.Chunk), all running at once, many calls each: the
+	// answer for a message must not depend on what other goroutines are looking up at the same moment
+	ops["CHUNKC"] = func(a []string) string {
+		return withWatchdog(func() string {
+			type res struct {
+				mu   sync.Mutex
+				seen map[string]bool
+			}
+			rs := make([]*res, len(a))
+			var wg sync.WaitGroup
+			start := make(chan struct{})
+			for i := range a {
+				rs[i] = &res{seen: map[string]bool{}}
+				b := unhx(a[i])
+				for k := 0; k < 2; k++ {
+					wg.Add(1)
+					go func(i, k int) {
+						defer wg.Done()
+						defer func() {
+							if r := recover(); r != nil {
+								rs[i].mu.Lock()
+								rs[i].seen["panic"] = true
+								rs[i].mu.Unlock()
+							}
+						}()
+						<-start
+						for it := 0; it < 300; it++ {
+							var c string
+							var err error
+							if k == 0 {
+								c, err = protocol.GetChunk(append([]byte{}, b...))
+							} else {
+								c, err = protocol.RawMessage(append([]byte{}, b...)).Chunk()
+							}
+							out := "err"
+							if err == nil {
+								out = "ok_" + hx([]byte(c))
+							}
+							rs[i].mu.Lock()
+							rs[i].seen[out] = true
+							rs[i].mu.Unlock()
+							if it%16 == 0 {
+								runtime.Gosched()
+							}
+						}
+					}(i, k)
+				}
+			}
+			close(start)
+			wg.Wait()
+			out := make([]string, len(a))
+			for i, r := range rs {
+				var ks []string
+				for k := range r.seen {
+					ks = append(ks, k)
+				}
+				sort.Strings(ks)
+				out[i] = strings.Join(ks, "|")
+			}
+			return strings.Join(out, " ")
+		})
+	}
+	// RAWE <hex> <followhex> => same | diff <len> <firstdiff>     RawMessage.EncodeMsg through a msgp.Writer, then a second
+	// message through the same writer: the stream must be the raw bytes verbatim followed by the second message
+	ops["RAWE"] = func(a []string) string {
+		b, f := unhx(a[0]), unhx(a[1])
+		return withWatchdog(func() string {
+			var buf bytes.Buffer
+			w := msgp.NewWriter(&buf)
+			if err := protocol.RawMessage(b).EncodeMsg(w); err != nil {
+				return "err"
+			}
+			if err := protocol.RawMessage(f).EncodeMsg(w); err != nil {
+				return "err"
+			}
+			if err := w.Flush(); err != nil {
+				return "err"
+			}
+			want := append(append([]byte{}, b...), f...)
+			if len(b) == 0 {
+				want = append([]byte{0xc0}, f...)
+			}
+			got := buf.Bytes()
+			if bytes.Equal(got, want) {
+				return "same"
+			}
+			i := 0
+			for i < len(got) && i < len(want) && got[i] == want[i] {
+				i++
+			}
+			return fmt.Sprintf("diff %d %d", len(got), i)
 		})
 	}
 	suites["chunk"] = genChunk
@@ -133,7 +235,33 @@ func genChunkMsg(r *Rng, tier string) *Node {
 }
 
 func genChunk(o *Out, r *Rng, n int, tier string) {
+	// raw messages of every size around the stream writer's buffer (2 KiB) and beyond, each followed by another message
+	for _, sz := range []int{0, 1, 17, 1000, 2040, 2047, 2048, 2049, 2100, 4095, 4096, 4097, 8192, 70000} {
+		m := nArr(nStr([]byte("raw.tag")), nInt(int64(sz)), nMap(nStr([]byte("pad")), nBin(r.Bytes(sz))))
+		b := m.Enc()
+		if sz == 0 {
+			b = nil
+		} else if len(b) > sz && sz > 40 {
+			// the message itself sz bytes long: shrink the padding by the framing overhead
+			m = nArr(nStr([]byte("raw.tag")), nInt(int64(sz)), nMap(nStr([]byte("pad")), nBin(r.Bytes(sz-(len(b)-sz)))))
+			b = m.Enc()
+		}
+		o.emit("C13", "RAWE", hx(b), hx(genChunkMsg(r, tier).Enc()))
+	}
 	for i := 0; i < n; i++ {
+		if r.Chance(2) {
+			// several messages looked up at the same time, each by its own goroutines
+			k := 2 + r.Intn(6)
+			ms := make([]string, k)
+			for j := range ms {
+				m := genChunkMsg(r, tier)
+				altHints(r, m, 30)
+				capExt(m)
+				ms[j] = hx(m.Enc())
+			}
+			o.emit("C11", "CHUNKC", ms...)
+			continue
+		}
 		switch r.Intn(10) {
 		case 0, 1: // library encodings
 			ty := codecTypes[r.Intn(4)]
